@@ -523,6 +523,14 @@ func checkRemarksLen(remarks string) string {
 }
 
 func extractAddressInfos(pkScript []byte) (scriptClass txscript.ScriptClass, recipient, staking, binding string, reqSigs int, err error) {
+	// the script comes from client-supplied or on-chain data; the extractor dereferences a nil
+	// address for bare-multisig scripts whose public keys do not parse
+	defer func() {
+		if r := recover(); r != nil {
+			scriptClass, recipient, staking, binding, reqSigs = 0, "", "", "", 0
+			err = fmt.Errorf("no address parsed from output script: %v", r)
+		}
+	}()
 	scriptClass, addrs, _, reqSigs, err := txscript.ExtractPkScriptAddrs(pkScript, config.ChainParams)
 	if err != nil {
 		return 0, "", "", "", 0, err
